@@ -43,6 +43,7 @@ def run(prog: Program, rep: Report, tier: str) -> None:
         n += region_coverage(rep, f)
     rep.floor('C13-D1 loops', n, 2)
     reference_operand(rep, prog)
+    default_comparisons(rep, prog)
 
 
 def region_coverage(rep: Report, f: FuncInfo) -> int:
@@ -109,7 +110,7 @@ def region_coverage(rep: Report, f: FuncInfo) -> int:
                     if all(any(isinstance(x, ast.Call) and isinstance(x.func, ast.Attribute) and x.func.attr in (CMP_BOTH | CMP_DEFAULT) for x in ast.walk(alt)) for alt in alts):
                         cmp_atoms[t2] = a2
         ret_false = {n2 for n2 in cfg.loop_body[hdr] if cfg.nodes[n2].kind == 'return' and isinstance(cfg.nodes[n2].expr, ast.Constant) and cfg.nodes[n2].expr.value is False}
-        if cmp_atoms and ret_false:
+        if ret_false:
             r_ok = walk(cfg, be, Env(atoms={t2: True for t2 in cmp_atoms}), loop_header_stop=hdr, unknown='both')
             spurious = ret_false & r_ok
             rep.ob('C13-D1 key-region', f.fq(), f"[{branch}] loop over {owner}: blocks that compare equal do not end the test with False", f.loc(lp), not spurious,
@@ -152,6 +153,36 @@ def region_coverage(rep: Report, f: FuncInfo) -> int:
             rep.ob('C13-D1 tolerance', f.fq(), norm(c)[:80], f.loc(c), ok,
                    'absolute tolerance is the caller\'s tol, no relative slack' if ok else 'the comparison does not use atol=tol, rtol=0: the stopping criterion is not the L-infinity distance the caller asked for')
     return count
+
+
+def default_comparisons(rep: Report, prog: Program) -> None:
+    """equal_default / allclose_default decide whether the stored elements equal the value of the unstored ones: the comparison
+    has self.physical on one side and (a tensor of) self.default on the other -- not truthiness, not a literal."""
+    rule = 'C13-D2 default-comparison'
+    pt = prog.cls('fggs.indices', 'PatternedTensor')
+    n = 0
+    for name in ('equal_default', 'allclose_default'):
+        m = pt.methods.get(name)
+        if m is None:
+            rep.ob(rule, pt.fq(), f"PatternedTensor.{name} exists", f"{pt.module.relpath}:{pt.node.lineno}", False, 'MultiTensor.allclose calls it for blocks present on one side only'); continue
+        n += 1
+        sn = m.self_name()
+        ok = False
+        for r in [x.value for x in own_nodes(m.node) if isinstance(x, ast.Return) and x.value is not None]:
+            r2 = inline_temps(m.node, r)
+            for c in [x for x in ast.walk(r2) if isinstance(x, ast.Call) and isinstance(x.func, ast.Attribute) and x.func.attr in ('eq', 'equal', 'allclose', 'isclose', 'ne')]:
+                recv, args = norm(c.func.value), [norm(a) for a in c.args]
+                sides = [recv] + args
+                if any(s_.startswith(f"{sn}.physical") for s_ in sides) and any(f"{sn}.default" in s_ for s_ in sides):
+                    ok = True
+            for c in [x for x in ast.walk(r2) if isinstance(x, ast.Compare) and len(x.ops) == 1 and isinstance(x.ops[0], (ast.Eq, ast.NotEq))]:
+                sides = [norm(c.left), norm(c.comparators[0])]
+                if any(s_.startswith(f"{sn}.physical") for s_ in sides) and any(f"{sn}.default" in s_ for s_ in sides):
+                    ok = True
+        rep.ob(rule, m.fq(), f"PatternedTensor.{name} compares self.physical with self.default", m.loc(), ok,
+               'stored elements are compared with the value the unstored elements have' if ok else
+               'the result does not compare the stored elements with self.default: wrong for every default other than the one it assumes (the semiring zero is -inf in the Log and Viterbi semirings)')
+    rep.floor('C13-D2', n, 2)
 
 
 def branch_of(cfg, n: int) -> str:
